@@ -20,6 +20,8 @@ import VProofs.Obligations.PandasTypeset
 import VProofs.Obligations.PandasGoodB
 import VProofs.Props.C16
 import VProofs.Props.C14
+import VProofs.Props.C01
+import VProofs.Props.C15
 namespace V.PandasProps
 open V V.Gen V.Pd
 
@@ -150,5 +152,130 @@ example : (match mkTypeset declared isGeneric completeSet with
     | .ok b => some ((ptraverse (pandasTS o0 b).succ 64 b.root cz).2, (ptraverse (pandasTS o0 b).succ 64 b.root cb).2)
     | .error _ => none) = some ([.Generic, .Complex, .Float, .Integer], [.Generic, .Object, .Boolean]) := by
   decide +kernel
+
+/-! ### C15 for the pandas model: the typeset built from `A ⊆ B` is the restriction of the one built from `B` -/
+
+theorem built_edges (S : List Ty) (nd : S.Nodup) (hg : Ty.Generic ∈ S) (pc : ParentClosedL declared S)
+    (b : Built Ty) (hb : mkTypeset declared isGeneric S = .ok b) : b.edges = presentEdges declared S := by
+  obtain ⟨b1, hb1, _, hr, _, he1, _⟩ := buildGraph_closed C14.tableWF S nd hg pc
+  have : mkTypeset declared isGeneric S = .ok b1 := by simp only [mkTypeset, hb1, hr]; rfl
+  rw [hb] at this
+  rw [Except.ok.inj this]; exact he1
+
+theorem presentEdges_nodup (S : List Ty) (nd : S.Nodup) : (presentEdges declared S).Nodup := by
+  have := (allDecls_pairwise C14.tableWF.srcNodup S nd).sublist (List.filter_sublist (p := fun e => S.contains e.src))
+  exact this.imp (fun hne heq => hne ⟨by rw [heq], by rw [heq]⟩)
+
+/-- successors in the typeset built from `A` = successors in the typeset built from `B ⊇ A` whose target is in `A`,
+up to order, at every node of `A` -/
+theorem succ_restrict_perm (o : ColOracle) (A B : List Ty) (hAB : ∀ t ∈ A, t ∈ B) (ndA : A.Nodup) (ndB : B.Nodup)
+    (bA bB : Built Ty) (eA : bA.edges = presentEdges declared A) (eB : bB.edges = presentEdges declared B)
+    (n : Ty) (hn : n ∈ A) :
+    (((pandasTS o bB).restrict (fun t => decide (t ∈ A))).succ n).Perm ((pandasTS o bA).succ n) := by
+  simp only [TS.restrict, pandasTS, purify, graphOf, List.map_map]
+  rw [List.filter_map]
+  apply List.Perm.map
+  have hfun : ((fun r : PRel Ty Column => decide (r.dst ∈ A)) ∘ (purifyRel ∘ mkRel o)) = (fun e : Edge Ty => decide (e.dst ∈ A)) := by
+    funext e; simp only [Function.comp, mkRel_dst]
+  rw [hfun, List.filter_filter]
+  apply (List.perm_ext_iff_of_nodup ?_ ?_).mpr
+  · intro e
+    simp only [List.mem_filter, eA, eB, mem_presentEdges, Bool.and_eq_true, decide_eq_true_eq, beq_iff_eq]
+    constructor
+    · rintro ⟨⟨_, _, hd⟩, hdA, hs⟩; exact ⟨⟨hdA, hs ▸ hn, hd⟩, hs⟩
+    · rintro ⟨⟨hdA, hsA, hd⟩, hs⟩; exact ⟨⟨hAB _ hdA, hAB _ hsA, hd⟩, hdA, hs⟩
+  · rw [eB]; exact (presentEdges_nodup B ndB).filter _
+  · rw [eA]; exact (presentEdges_nodup A ndA).filter _
+
+/-- a general fact: for a well-formed type system, a walk over `s₂` equals the walk over `s₁` when the adjacency lists
+agree up to order at every node of a set the `s₁`-walk cannot leave -/
+theorem walk_eq_of_perm_on {T D : Type} (ts : TS T D) {I : D → Prop} (wf : ts.WF I) (N : T → Prop)
+    (hN : ∀ n r, N n → r ∈ ts.succ n → N r.dst)
+    (s₂ : T → List (PRel T D)) (hp : ∀ n, N n → (ts.succ n).Perm (s₂ n))
+    (f : Nat) (n : T) (x : D) (hn : N n) (hI : I x) (hc : ts.contains n x = true) :
+    ptraverse ts.succ f n x = ptraverse s₂ f n x :=
+  ptraverse_perm_on ts.succ s₂ (fun n x => N n ∧ I x ∧ ts.contains n x = true)
+    (fun n _ h => hp n h.1)
+    (fun n x h => wf.mutex n x h.2.1 h.2.2)
+    (fun n x r h hr hg => ⟨hN n r h.1 hr, wf.closed n r x hr h.2.1 h.2.2 hg, wf.lands n r x hr h.2.1 h.2.2 hg⟩)
+    f n x ⟨hn, hI, hc⟩
+
+/-- **C15_pandas**: for typesets built from supply lists `A ⊆ B` (duplicate-free, parent closed, within the 22 types,
+`A` containing Generic) and every `Good` column: the detection path under `A` is a prefix of the one under `B`, holds
+only types of `A`, and every type of `B`'s path that belongs to `A` is on it (so `detect_A` is the deepest type of `B`'s
+detection path in `A`); the inference walk under `A` is a prefix of the one under `B`, and `B`'s walk continues from
+`A`'s answer and `A`'s cast data along `B`'s relations (so `infer_B` is reachable from `infer_A`). -/
+theorem C15_pandas (o : ColOracle) (A B : List Ty) (hAB : ∀ t ∈ A, t ∈ B) (ndA : A.Nodup) (ndB : B.Nodup)
+    (hgA : Ty.Generic ∈ A) (pcA : ParentClosedL declared A) (pcB : ParentClosedL declared B)
+    (hsubB : ∀ t ∈ B, t ∈ completeSet) (c : Column) (hG : Good o c) :
+    ∃ bA bB, mkTypeset declared isGeneric A = .ok bA ∧ mkTypeset declared isGeneric B = .ok bB ∧
+      (let pA := (ptraverse (pandasTS o bA).idSucc 64 bA.root c).2
+       let pB := (ptraverse (pandasTS o bB).idSucc 64 bB.root c).2
+       pA <+: pB ∧ (∀ t ∈ pB, t ∈ A → t ∈ pA) ∧ (∀ t ∈ pA, t ∈ A)) ∧
+      (let rA := ptraverse (pandasTS o bA).succ 64 bA.root c
+       let rB := ptraverse (pandasTS o bB).succ 64 bB.root c
+       rA.2 <+: rB.2 ∧
+       ptraverse (pandasTS o bB).succ 64 (plast bA.root rA.2) rA.1 = (rB.1, rB.2.drop (rA.2.length - 1))) := by
+  have hgB := hAB _ hgA
+  obtain ⟨bA, hbA, hrA, _, _, _⟩ := built_typeset o A ndA hgA pcA (fun t ht => hsubB t (hAB t ht))
+  obtain ⟨bB, hbB, hrB, _, ftB, _⟩ := built_typeset o B ndB hgB pcB hsubB
+  have eA := built_edges A ndA hgA pcA bA hbA
+  have eB := built_edges B ndB hgB pcB bB hbB
+  refine ⟨bA, bB, hbA, hbB, ?_⟩
+  rw [hrA, hrB]
+  let tsB := pandasTS o bB
+  let S : Ty → Bool := fun t => decide (t ∈ A)
+  have wfB : tsB.WF (Good o) := pandas_WF' o bB ftB
+  have wfR : (tsB.restrict S).WF (Good o) := wfB.restrict S
+  have hS : S Ty.Generic = true := by simpa [S] using hgA
+  -- the parent-closure hypothesis of the engine theorem
+  have pc : ParentClosed tsB S := by
+    intro n r hr hd
+    obtain ⟨hrs, hi⟩ := mem_idSucc.mp hr
+    obtain ⟨e, he, hsrc, _, _, hdst, hinf, _⟩ := mem_pandasTS_succ hrs
+    have hdA : e.dst ∈ A := by rw [← hdst]; simpa [S] using hd
+    have := pcA e.dst hdA ⟨e.src, e.inferential⟩ (ftB.decl e he) (by rw [← hinf]; exact hi)
+    simp only at this
+    simpa [S, ← hsrc] using this
+  have hperm := succ_restrict_perm o A B hAB ndA ndB bA bB eA eB
+  have stay : ∀ n r, n ∈ A → r ∈ (tsB.restrict S).succ n → r.dst ∈ A := by
+    intro n r _ hr
+    have := (mem_restrict_succ.mp hr).2
+    simpa [S] using this
+  have hcG : (tsB.restrict S).contains Ty.Generic c = true := rfl
+  -- inference walks coincide
+  have einf : ptraverse (tsB.restrict S).succ 64 Ty.Generic c = ptraverse (pandasTS o bA).succ 64 Ty.Generic c :=
+    walk_eq_of_perm_on (tsB.restrict S) wfR (· ∈ A) stay _ hperm 64 Ty.Generic c hgA hG hcG
+  -- detection walks coincide
+  have wfRi : (tsB.restrict S).idOnly.WF (Good o) := wfR.idOnly
+  have edet : ptraverse (tsB.restrict S).idSucc 64 Ty.Generic c = ptraverse (pandasTS o bA).idSucc 64 Ty.Generic c := by
+    have := walk_eq_of_perm_on (tsB.restrict S).idOnly wfRi (· ∈ A)
+      (fun n r hn hr => stay n r hn (mem_idSucc.mp hr).1)
+      (pandasTS o bA).idSucc (fun n hn => (hperm n hn).filter _) 64 Ty.Generic c hgA hG hcG
+    exact this
+  constructor
+  · have := C15.C15_detect tsB wfB S pc Ty.Generic 64 (fuel_ok o bB _) c hG rfl hS
+    simp only [edet] at this
+    obtain ⟨h1, h2, h3⟩ := this
+    exact ⟨h1, fun t ht hA => h2 t ht (by simpa [S] using hA), fun t ht => by simpa [S] using h3 t ht⟩
+  · have := C15.C15_infer tsB wfB S Ty.Generic 64 (fuel_ok o bB _) c hG rfl
+    simp only [einf] at this
+    exact this
+
+/-- **C01 for every constructible typeset and EVERY column** (no hypothesis on the column at all): detection returns
+the input, the path starts at Generic, every type on it contains the column, consecutive types are linked by identity
+relations of the typeset, and no identity child of the answer contains the column -/
+theorem C01_pandas_built (o : ColOracle) (S : List Ty) (nd : S.Nodup) (hg : Ty.Generic ∈ S)
+    (pc : ParentClosedL declared S) (hsub : ∀ t ∈ S, t ∈ completeSet) (c : Column) :
+    ∃ b, mkTypeset declared isGeneric S = .ok b ∧
+      let res := ptraverse (pandasTS o b).idSucc 64 b.root c
+      res.1 = c ∧ res.2.head? = some Ty.Generic ∧ (∀ t ∈ res.2, containsB t c = true) ∧
+      Linked (fun a b' => ∃ r ∈ (pandasTS o b).idSucc a, r.dst = b') res.2 ∧
+      (∀ r ∈ (pandasTS o b).idSucc (plast b.root res.2), containsB r.dst c = false) := by
+  obtain ⟨b, hb, hr, _, ft, _⟩ := built_typeset o S nd hg pc hsub
+  refine ⟨b, hb, ?_⟩
+  have := C01.C01_pandas o b ft.rank c (by rw [hr]; rfl)
+  rw [hr] at this ⊢
+  exact this
 
 end V.PandasProps
